@@ -328,6 +328,45 @@ def crafted() -> list[dict[str, Any]]:
     return out
 
 
+def tlc_scenarios(seed: int, num: int, depth: int = 150) -> list[dict[str, Any]]:
+    """Leg C: configurations and histories drawn by TLC itself (`-simulate` on Sim_Spawning) become scenarios of the real operator."""
+    from vf import tlaval
+    scratch = tempfile.mkdtemp(prefix='vf-ssim-')
+    try:
+        tlc.run('Sim_Spawning', 'Sim_Spawning.cfg', workers=1, simulate=f'file={scratch}/tr,num={num}', depth=depth, seed=seed, timeout=900)
+        out = []
+        for fn in sorted(f for f in os.listdir(scratch) if f.startswith('tr_')):
+            text = open(os.path.join(scratch, fn)).read()
+            states = []
+            for b in re.split(r'\n(?=\\\* <)', text):
+                m = re.search(r'STATE_\d+ ==\s*\n((?:.|\n)*)', b)
+                if m:
+                    states.append(tlaval.parse_state(m.group(1).split('\n====')[0]))
+            if len(states) < 3:
+                continue
+            dh = states[0]['conf']['dh']
+            hs: dict[str, Any] = {}
+            for h in ('d1', 'd2'):
+                c = dh[h]
+                if str(c['kind']) == 'daemon':
+                    hs[h] = {'kind': 'daemon', 'reaction': str(c['react']), 'after': max(0, int(c['lat'])), 'backoff': int(c['backoff']),
+                             'timeout': int(c['timeout'])}
+            if str(dh['t1']['kind']) == 'timer':
+                hs['t1'] = {'kind': 'timer', 'interval': 2, 'idle': 0}
+            env: list[tuple] = []
+            for a, b in zip(states, states[1:]):
+                t = int(a['now']) + 1          # the harness creates the object at instant 1
+                for key, op in (('edits', 'edit'), ('toggles', 'toggle'), ('deletes', 'delete'), ('force', 'forcefin'), ('stops', 'stop')):
+                    if int(b['bud'][key]) > int(a['bud'][key]):
+                        env.append((t, 1, op))
+            tmax = int(states[-1]['now']) + 1
+            out.append({'id': f'tlc-{seed}-{fn}', 'handlers': hs, 'env': env, 'init_on': True, 'delete_before_finalizer': False, 'end': tmax + 60,
+                        'from_tlc': True})
+        return out
+    finally:
+        shutil.rmtree(scratch, ignore_errors=True)
+
+
 _RE = re.compile(r'<<"MONITOR",\s*(\d+),\s*"([^"]*)",\s*"([^"]*)">>')
 
 
